@@ -3,9 +3,13 @@ C14 — generate is deterministic.
 The model is a function of the input text by construction, except at the three
 places where the Rust code iterates over a hash collection; there the model
 takes the contents in an arbitrary order, and the theorems here show the result
-does not depend on it.  (first layer: site 1, `HashSet<Transition>` → `Oset`)
+does not depend on it.  There are two such places (every other `HashMap`/`HashSet` in the crate is only
+queried with `get`/`contains`/`insert`): the `HashSet<Transition>` collected into an `Oset` in
+`normalize_machine` (`C14_ofList_perm`) and the two `HashMap`s of `TableBuilder` iterated in `build_as_is`
+(`C14_table_order_independent`).
 -/
 import KikiVerif.Proofs.Oset
+import KikiVerif.Proofs.Perm
 
 namespace KikiVerif.C14
 open KikiVerif Oset Std
@@ -19,6 +23,16 @@ theorem C14_ofList_perm (l₁ l₂ : List α) (h : l₁.Perm l₂) : (Oset.ofLis
   rw [mem_ofList, mem_ofList]
   exact h.mem_iff
 
+/-- **site 2**: `build_as_is` returns the same table for every iteration order of the builder's maps -/
+theorem C14_table_order_independent (c : Machine.Ctx) (m : Machine.Machine) (tb tb' : Table.TB)
+    (h1 : Table.addActions c m m.states 0 ⟨[], []⟩ = .ok tb) (h2 : Table.addGotos m.transitions tb = .ok tb')
+    (acts : List ((Nat × Nat) × (Machine.Item × LR.Action))) (gts : List ((Nat × Nat) × Nat))
+    (ha : tb'.actions.Perm acts) (hg : tb'.gotos.Perm gts) :
+    Table.buildAsIs (Table.emptyTable c m) acts gts =
+      Table.buildAsIs (Table.emptyTable c m) tb'.actions tb'.gotos :=
+  Table.machineToTable_order_independent c m tb tb' h1 h2 acts gts ha hg
+
 end KikiVerif.C14
 
 #print axioms KikiVerif.C14.C14_ofList_perm
+#print axioms KikiVerif.C14.C14_table_order_independent
